@@ -167,6 +167,15 @@ fn run_pat(cx: &mut Cx, p: Pat, label: &str) {
     }
     for n in want.keys() {
         if !count.contains_key(n) {
+            // did the listing stop early (more entries follow the offset at which the reply was empty)?
+            let more = w.readdir(dino, handles[0], 4096.max(size), off, usize::MAX, p.plus).map(|v| v.len()).unwrap_or(0);
+            if more > 0 {
+                fail!(
+                    "C16.list.premature_end",
+                    format!("a reply is empty only at the end of the directory: a buffer of {} bytes holds the next entry ({} bytes at most)", size, min),
+                    format!("request #{} (size {}, offset {}) was answered with an empty reply although {} more entries follow that offset; delivered so far [{}]", calls, size, off, more, show(&got))
+                );
+            }
             fail!(
                 "C16.list.missing",
                 format!("all {} entries are listed before the empty reply", want.len()),
@@ -210,6 +219,14 @@ fn run_pat(cx: &mut Cx, p: Pat, label: &str) {
                 format!("resuming from the offset of entry #{} ({}) lists exactly the {} entries that followed it: [{}]", j, got[*j].off, expect.len(), show(&got[*j + 1..])),
                 format!("[{}]", show(&tail))
             );
+        }
+    }
+    // ---- the client's callback fails at the j-th entry of a request: that entry is not delivered
+    if p.plus && p.k == usize::MAX && p.size == 4096 {
+        for j in 0..p.n.min(3) {
+            w.cb_error_at = Some(j);
+            let _ = w.readdir(dino, handles[0], 4096, 0, usize::MAX, true);
+            w.cb_error_at = None;
         }
     }
     // ---- references: one per delivered readdirplus entry, none for refused ones
